@@ -39,11 +39,13 @@ Definition trimSpaces (s : bytes) : bytes := rev (dropSpaces (rev (dropSpaces s)
 (* the `len(src) > 1 && src[0] == '"' && src[len-1] == '"'` test and cut *)
 Definition unquote (s : bytes) : bytes :=
   match s with
-  | 34 :: r => match rev r with
-               | 34 :: m => rev m
-               | _ => s
-               end
-  | _ => s
+  | c :: r => if c =? 34 then
+                match rev r with
+                | d :: m => if d =? 34 then rev m else s
+                | [] => s
+                end
+              else s
+  | [] => s
   end.
 
 (* trimCookieArgNoCopy and decodeCookieArg return the same byte string (the latter copies; its fast path
@@ -74,8 +76,8 @@ Definition scan_pair (b : bytes) : option (bytes * bytes * bytes) :=
   | _ =>
       let '(seg, after) := split_at 59 b in
       let rest := match after with
-                  | Some (32 :: r) => r
-                  | Some r => r
+                  | Some (c :: r) => if c =? 32 then r else c :: r
+                  | Some [] => []
                   | None => []
                   end in
       let '(x, y) := split_at 61 seg in
